@@ -153,7 +153,7 @@ def run(ctx):
     for part in E.chunks(ex, 20000):
         st, br = run_cases(ctx, "exhaustive", part); broken += br
     ctx.coverage["exhaustive"] = True
-    n = 3000 if quick else 60000
+    n = 3000 if quick else 24000
     for part in range(0, n, 3000):
         cases = E.gen_cases(ctx.rng, min(3000, n - part))
         st, br = run_cases(ctx, "random", cases); broken += br
@@ -161,7 +161,7 @@ def run(ctx):
             d, e = cases[0]
             ctx.sample({"suite": "random", "chart": charts.sexpr(d)[:600], "events": e})
     # the same algorithm with a scripting datamodel: variables, assignments, conditions on data
-    cases = E.gen_cases(ctx.rng, 1000 if quick else 20000, nvars=2, dm="lua")
+    cases = E.gen_cases(ctx.rng, 1000 if quick else 8000, nvars=2, dm="lua")
     st, br = run_cases(ctx, "random-lua", cases, dm="lua", nvars=2); broken += br
     E.hypotheses(ctx, "theorem-hypotheses", [d for d, _ in cases] + [d for d, _ in ex[:3000]])
     if broken and not ctx.violations:
